@@ -2,6 +2,9 @@
 smallest weights within tolerance."""
 import json
 from fractions import Fraction
+import os
+for _v in ('OMP_NUM_THREADS', 'OPENBLAS_NUM_THREADS', 'MKL_NUM_THREADS'):     # tiny matrices, 14 worker processes:
+    os.environ.setdefault(_v, '1')                                            # threaded BLAS only causes contention
 import numpy as np
 from pytenet import bond_ops
 from pytenet import mps as ptn_mps
